@@ -6,10 +6,10 @@ H = "harness/C11_history.py"
 def run(ctx: Ctx) -> int:
     L = ctx.pick(2, 3)
     nsh = ctx.pick(8, 64)
-    jobs = [Job(H, "h_history", timeout=ctx.pick(400, 1500), name=f"h_history[L<={L},core pool,shard {i + 1}/{nsh}]", env={"VERIF_C11_L": L, "VERIF_C11_SHARD": f"{i}/{nsh}"})
+    jobs = [Job(H, "h_history", timeout=ctx.pick(400, 1500), name=f"h_history[L<={L},core pool,shard {i + 1}/{nsh}]", env={"VERIF_C11_L": L, "VERIF_C11_SHARD": f"{i}/{nsh}"}, session_call="h_session()")
             for i in range(nsh)]
     if not ctx.quick:
-        jobs += [Job(H, "h_history", timeout=1500, name=f"h_history[L<=2,whole pool,shard {i + 1}/32]", env={"VERIF_C11_L": 2, "VERIF_C11_SHARD": f"{i}/32", "VERIF_C11_HPOOL": "all"})
+        jobs += [Job(H, "h_history", timeout=1500, name=f"h_history[L<=2,whole pool,shard {i + 1}/32]", env={"VERIF_C11_L": 2, "VERIF_C11_SHARD": f"{i}/32", "VERIF_C11_HPOOL": "all"}, session_call="h_session()")
                  for i in range(32)]
     ctx.functions_encoded = ["engine.py: CompilationEngine.check / reset / get_parsed / get_checked, the check worklists, DefinitionStore (register_def / register_impl / sources)",
                              "definition/function.py, declaration.py, struct.py (parse / check, generated struct methods), checker/* and cfg/* as reached by the pool — all through the public .check()"]
